@@ -86,13 +86,15 @@ def size_choices(rng, kind, mtu, mode, big):
     if kind == "N":
         c = [1, 2, r - 1, r, r + 1, r // 2, r // 3, max(1, r - CHS - 1), max(1, r - CHS), rng.randint(1, r), rng.randint(1, r),
              rng.randint(1, max(1, r // 4)), 2 * r]
-    lim = big if mode == "M" else min(big, 1000)
-    return [x for x in c if 1 <= x <= lim] or [1]
+    lim = big if mode in "MB" else min(big, 1000)
+    if mode == "B":
+        c = c + [0, 0, 0]       # the empty buffer: only the harness's own slave gateway can produce it
+    return [x for x in c if (0 if mode == "B" else 1) <= x <= lim] or [1]
 
 
 def mk_buffer(rng, mode, size, style):
     """hex text of one A-op argument of (about) this many bytes"""
-    if mode == "R":
+    if mode in "RB":
         return payload(rng, size, style).hex()
     if size < 34:
         return flat_msg(rng.randrange(1 << 32), None).hex()
@@ -154,7 +156,7 @@ def head(kind, mode, rmtu, rmagic, rsex=0, rmax=NOLIM, misc=0):
 
 
 def one_sender_case(rng, kind, big, pattern=None, level=0, styles=("rand", "text", "ramp", "const"), rmax=NOLIM, interleave=False):
-    mode = rng.choice("RRM")
+    mode = rng.choice("RRMB")
     magic = PMAGIC if kind == "P" else NMAGIC
     if rng.random() < 0.1:
         magic = rng.randrange(1 << 32)
@@ -190,7 +192,7 @@ def one_sender_case(rng, kind, big, pattern=None, level=0, styles=("rand", "text
 
 def perfect_case(rng, kind, big, nsend=1, rmax=NOLIM, level=0):
     """every packet once, in order; output and delivery interleaved; limits in play"""
-    mode = rng.choice("RRM")
+    mode = rng.choice("RRMB")
     magic = PMAGIC if kind == "P" else NMAGIC
     mtu = rng.choice([0, 25, 26, 30, 48, 50, 64, 100, 128, 200, 300] if kind == "P" else [0, 17, 20, 30, 64, 100, 200, 300])
     if level:
@@ -206,7 +208,7 @@ def perfect_case(rng, kind, big, nsend=1, rmax=NOLIM, level=0):
     pool = size_choices(rng, kind, m, mode, big)
     if rmax != NOLIM:
         pool = pool + [rmax, rmax + 1, max(1, rmax - 1), rmax + m, 2 * rmax + 1]
-        pool = [x for x in pool if x <= (big if mode == "M" else 1000)]
+        pool = [x for x in pool if x <= (big if mode in "MB" else 1000)]
     emitted = 0
     delivered = 0
     est = 0
@@ -236,7 +238,7 @@ def perfect_case(rng, kind, big, nsend=1, rmax=NOLIM, level=0):
 
 def multi_case(rng, kind, big):
     """two or three senders; sometimes sharing a source address, sometimes packets arriving from another address"""
-    mode = "R"
+    mode = rng.choice("RRB")
     magic = PMAGIC if kind == "P" else NMAGIC
     mtu = rng.choice([25, 30, 48, 64, 100]) if kind == "P" else rng.choice([20, 40, 64, 100])
     m = eff_mtu(kind, mtu)
@@ -321,6 +323,73 @@ def evict_case(rng, many):
     return head("P", "R", 30, magic) + "|" + ";".join(ops)
 
 
+def wrap_case(rng, big):
+    """message ids running across the 2^32 wrap, over a faulty network"""
+    mtu = rng.choice([25, 26, 30, 48, 64])
+    m = eff_mtu("P", mtu)
+    id0 = rng.choice([NOLIM, NOLIM - 1, NOLIM - 2, NOLIM - 3])
+    ops = ["S:0:5:%d:%d:0:0" % (mtu, PMAGIC), "I:0:%d" % id0]
+    sizes = []
+    for _ in range(rng.choice([3, 4, 6, 8])):
+        b = payload(rng, rng.choice(size_choices(rng, "P", m, "R", big)), rng.choice(["rand", "ramp"]))
+        sizes.append(len(b)); ops.append("A:0:" + b.hex())
+        if rng.random() < 0.3:
+            ops.append("O:0:%d:%d" % (NOLIM, BIG))
+    ops.append("O:0:%d:%d" % (NOLIM, BIG)); ops.append("O:0:%d:%d" % (NOLIM, BIG))
+    n = sim_packets("P", m, sizes) + 2
+    pat = rng.choice(PATTERNS)
+    return pat, head("P", "R", mtu, PMAGIC) + "|" + ";".join(ops + ["D:%d" % j for j in network(rng, n, pat)])
+
+
+def sex_case(rng, kind, big):
+    """source-exclusion ids: the receiver ignores what carries its own non-zero id, and only that"""
+    magic = PMAGIC if kind == "P" else NMAGIC
+    mtu = rng.choice([30, 48, 64, 100])
+    m = eff_mtu(kind, mtu)
+    rsex = rng.choice([0, 7, 7, 7, NOLIM])
+    ops = []
+    total = 0
+    ns = rng.choice([1, 2, 3])
+    for i in range(ns):
+        ops.append("S:%d:%d:%d:%d:%d:0" % (i, 10 + i, mtu, magic, rng.choice([0, 7, 8, NOLIM])))
+        sizes = []
+        for _ in range(rng.choice([1, 2, 3])):
+            b = payload(rng, rng.choice(size_choices(rng, kind, m, "R", big)), "ramp")
+            sizes.append(len(b)); ops.append("A:%d:%s" % (i, b.hex()))
+        ops.append("O:%d:%d:%d" % (i, NOLIM, BIG))
+        total += sim_packets(kind, m, sizes)
+    pat = rng.choice(["perfect", "perfect", "shuffle", "drop1", "dup1"])
+    return head(kind, "R", mtu, magic, rsex) + "|" + ";".join(ops + ["D:%d" % j for j in network(rng, total, pat)])
+
+
+def lru_case(rng, nsrc):
+    """one sender's packets arriving under several source addresses, round-robin and shuffled: per-source assembly,
+    order of the receive-state table (GetAndMoveToBack)"""
+    mtu = rng.choice([26, 30, 40])
+    m = eff_mtu("P", mtu)
+    ops = ["S:0:1:%d:%d:0:0" % (mtu, PMAGIC)]
+    sizes = []
+    for _ in range(rng.choice([1, 2])):
+        b = payload(rng, rng.choice([m - 24 + 1, 2 * (m - 24), 2 * (m - 24) + 3]), "ramp")
+        sizes.append(len(b)); ops.append("A:0:" + b.hex())
+    ops.append("O:0:%d:%d" % (NOLIM, BIG))
+    n = sim_packets("P", m, sizes)
+    addrs = list(range(1, nsrc + 1))
+    plan = [(j, a) for j in range(n) for a in addrs]          # packet-major: all sources advance together
+    if rng.random() < 0.5:
+        # perturb: some sources get a packet early/late/twice/never
+        for _ in range(len(plan) // 3):
+            k = rng.randrange(len(plan))
+            r = rng.random()
+            if r < 0.4 and k + 1 < len(plan):
+                plan[k], plan[k + 1] = plan[k + 1], plan[k]
+            elif r < 0.7:
+                plan.insert(k, plan[k])
+            else:
+                plan.pop(k)
+    return head("P", "R", mtu, PMAGIC) + "|" + ";".join(ops + ["E:%d:%d" % (j, a) for j, a in plan])
+
+
 def exhaustive_cases(kind, maxlen):
     """all delivery sequences of length <= maxlen over the packets of one fixed 3-message scenario"""
     out = []
@@ -358,6 +427,10 @@ DIRECTED = [
     ("directed", "N,R,50,%d,7,%d,0|S:0:5:50:%d:7:0;S:1:6:50:%d:8:0;A:0:0102;A:1:0304;O:0:%d:%d;O:1:%d:%d;D:0;D:1" % (NMAGIC, NOLIM, NMAGIC, NMAGIC, NOLIM, BIG, NOLIM, BIG)),
     # mini: a Message that can never fit is dropped, its neighbours are not; packet id across 2^24
     ("directed", "N,R,30,%d,0,%d,0|S:0:5:30:%d:0:0;I:0:16777215;A:0:0102;A:0:%s;A:0:0304;A:0:%s;A:0:05;O:0:%d:%d;D:0;D:1;D:2" % (NMAGIC, NOLIM, NMAGIC, "77" * 15, "88" * 14, NOLIM, BIG)),
+    # empty buffers (mode B): fragment with no data; a duplicate of an empty Message IS delivered again (the model says so too)
+    ("directed", "P,B,30,%d,0,%d,0|S:0:5:30:%d:0:0;A:0:;A:0:0102;A:0:;A:0:;O:0:%d:%d;D:0;D:0;D:1;D:1" % (PMAGIC, NOLIM, PMAGIC, NOLIM, BIG)),
+    ("directed", "N,B,30,%d,0,%d,0|S:0:5:30:%d:0:0;A:0:;A:0:0102;A:0:;A:0:;O:0:%d:%d;D:0;D:0;D:1" % (NMAGIC, NOLIM, NMAGIC, NOLIM, BIG)),
+    ("directed", "N,B,60,%d,0,%d,0|S:0:5:60:%d:0:5;A:0:;A:0:;A:0:;A:0:;A:0:;A:0:;A:0:;A:0:;O:0:%d:%d;D:0;D:0" % (NMAGIC, NOLIM, NMAGIC, NOLIM, BIG)),
     # receiver with a smaller MTU truncates what it reads
     ("directed", "P,R,30,%d,0,%d,0|S:0:5:100:%d:0:0;A:0:%s;A:0:0304;O:0:%d:%d;D:0" % (PMAGIC, NOLIM, PMAGIC, "66" * 20, NOLIM, BIG)),
     ("directed", "N,R,20,%d,0,%d,0|S:0:5:100:%d:0:0;A:0:0102;A:0:%s;A:0:0304;O:0:%d:%d;D:0" % (NMAGIC, NOLIM, NMAGIC, "66" * 20, NOLIM, BIG)),
@@ -382,6 +455,9 @@ class CHECK(vlib.Check):
                 "inflate (deflate lvl x) = Some x; the model driver uses the graph of the real codec observed on the implementation's wire",
                 "buffer sizes, MTU and offsets below 2^32 (ByteBuffer sizes are uint32); message-id arithmetic wraps explicitly",
                 "allocation never fails; memory safety of the C++ is observed by ASan/UBSan in the harness only",
+                "NOT claimed (observation only): HasBytesToOutput() of both tunnels ignores a packet held back after Write() returned 0 "
+                "(_outputPacketSize > 0 with empty queues), so an event loop that polls it flushes that packet only once another Message "
+                "is queued; the completeness theorems are about the packets that were written (premise s_pkt/m_pkt = [] or a final DoOutput call)",
                 "soundness premise of the property itself: the ids of one source's Messages are distinct mod 2^32 (at most 2^32 Messages per sender), "
                 "one sender per source address, no third party sending datagrams that carry the tunnel's magic from a sender's address"]
     rule = ("scenario scripts (senders with their own gateway objects, Messages added, DoOutput calls with byte limits and transports that "
@@ -413,8 +489,17 @@ class CHECK(vlib.Check):
             out.append(("P-multi", multi_case(rng, "P", big)))
         for _ in range(rep(200)):
             out.append(("P-foreign", forged_case(rng, "P", big)))
-        for many in ([258, 260] if q else [257, 258, 259, 260, 300, 515]):
+        for many in ([257, 258, 260] if q else [256, 257, 258, 259, 260, 300, 515]):
             out.append(("P-evict", evict_case(rng, many)))
+        for _ in range(rep(150)):
+            pat, c = wrap_case(rng, big)
+            out.append(("P-idwrap/" + pat, c))
+        for _ in range(rep(120)):
+            out.append(("P-sexid", sex_case(rng, "P", big)))
+        for _ in range(rep(60)):
+            out.append(("N-sexid", sex_case(rng, "N", big)))
+        for _ in range(rep(100)):
+            out.append(("P-lru", lru_case(rng, rng.choice([2, 3, 4, 6, 9]))))
         for c in exhaustive_cases("P", 3 if q else 5):
             out.append(("P-exhaustive", c))
         for _ in range(rep(300)):
